@@ -6,10 +6,18 @@
 package main
 
 import (
+	"encoding/json"
 	"fmt"
 	"os"
+	"os/exec"
+	"strings"
 	"sync"
 )
+
+// rot: rotation of the value order (child processes: C10_ROT=k).  Whatever an equality remembers per type from
+// the FIRST value it sees is fixed by the first comparison of a process; rotating the order makes the first
+// value one of another union case.
+var rot = 0
 
 var transMax = 12
 
@@ -29,6 +37,7 @@ type typ struct {
 	eq     func(i, j int) bool
 	ne     func(i, j int) bool
 	direct func(i, j int) bool
+	hasUnion bool
 	// related pairs: b derived from a (may share storage); op 0 "=", 1 "<>", 2 OpEqual
 	nrel     int
 	relCanon [][2]string
@@ -56,9 +65,17 @@ func try(f func(i, j int) bool, i, j int) (res bool, panicked bool, msg string) 
 }
 
 func main() {
+	child := false
+	if v := os.Getenv("C10_ROT"); v != "" {
+		fmt.Sscan(v, &rot)
+		child = true
+	}
 	var wg sync.WaitGroup
 	sem := make(chan struct{}, 16)
 	for _, t := range types {
+		if child && !t.hasUnion {
+			continue
+		}
 		wg.Add(1)
 		sem <- struct{}{}
 		go func(t *typ) {
@@ -69,6 +86,39 @@ func main() {
 	}
 	wg.Wait()
 	rep.Extra["types_in_chunk"] = len(types)
+	if !child {
+		// further rounds in fresh processes
+		for k := 1; k <= 2; k++ {
+			cmd := exec.Command(os.Args[0], os.Args[1:]...)
+			cmd.Env = append(os.Environ(), fmt.Sprintf("C10_ROT=%d", k))
+			out, err := cmd.Output()
+			i := strings.LastIndex(string(out), "\n@@REPORT ")
+			if i < 0 {
+				fmt.Fprintln(os.Stderr, "c10: rotated round produced no report:", err)
+				os.Exit(3)
+			}
+			var cr Report
+			js := string(out)[i+len("\n@@REPORT "):]
+			if nl := strings.Index(js, "\n"); nl >= 0 {
+				js = js[:nl]
+			}
+			if err := json.Unmarshal([]byte(js), &cr); err != nil {
+				fmt.Fprintln(os.Stderr, "c10: rotated round report:", err)
+				os.Exit(3)
+			}
+			rep.Evals += cr.Evals
+			rep.Validated += cr.Validated
+			rep.Trans += cr.Trans
+			for k2, v := range cr.Outcomes {
+				rep.Outcomes[k2] += v
+			}
+			rep.H("kind:rotated-rounds", cr.Evals)
+			for _, v := range cr.Violations {
+				rep.V(v.Sig, fmt.Sprintf("[value order rotated by %d, fresh process] %s", k, v.What), v.Replay)
+			}
+		}
+		rep.Extra["rotated_rounds"] = 2
+	}
 	rep.Emit()
 }
 
@@ -87,12 +137,14 @@ func one(t *typ) {
 		cmu.Unlock()
 	}()
 	{
-		for i := 0; i < t.n; i++ {
+		for ii := 0; ii < t.n; ii++ {
+			i := (ii + rot) % t.n
 			distinct++
 			if t.kind != "int" && t.kind != "string" && t.kind != "bool" {
 				nontrivial++
 			}
-			for j := 0; j < t.n; j++ {
+			for jj := 0; jj < t.n; jj++ {
+				j := (jj + rot) % t.n
 				trans++
 				want := t.canon[i] == t.canon[j]
 				in := fmt.Sprintf("type %s: %s (%s) vs %s (%s)", t.fo, t.canon[i], t.how[i], t.canon[j], t.how[j])
